@@ -31,6 +31,20 @@ def handle (toks : List String) : String :=
       if h.length ≠ g.length ∨ a.length ≠ d.length then "err filter" else
       s!"ok {fmtRatList (C10.idwt1 h g a d)}"
     | _, _, _, _ => "err bad-op"
+  | some "wavedec" =>
+    -- `pywt.wavedec(x, w, 'zero', level)`: the coefficient lists `a_J | d_J | … | d_1`
+    match getR "h", getR "g", optNat toks "level", getR "x" with
+    | some h, some g, some (some J), some x =>
+      if h.length ≠ g.length then "err filter" else
+      "ok " ++ " | ".intercalate ((C10.wavedec h g J x).map fmtRatList)
+    | _, _, _, _ => "err bad-op"
+  | some "waverec" =>
+    -- `pywt.waverec(coeffs, w, 'zero')` with `coeffs` given flattened (`c`) plus their lengths (`lens`)
+    match getR "h", getR "g", natList toks "lens", getR "c" with
+    | some h, some g, some lens, some c =>
+      if h.length ≠ g.length ∨ lens.foldl (· + ·) 0 ≠ c.length then "err filter" else
+      s!"ok {fmtRatList (C10.waverec h g (C10.splitLens lens c))}"
+    | _, _, _, _ => "err bad-op"
   | some "fwt1" =>
     match getR "h", getR "g", optNat toks "level", getR "x" with
     | some h, some g, some lv, some x => s!"ok {fmtRatList (C10.fwt1 h g lv x)}"
